@@ -18,7 +18,7 @@ from checks.common.history import Failure, explore
 PROP = 'C10'
 LEVEL = 'exploration'
 SHARDS = {'quick': 4, 'thorough': 16}
-BUDGET_S = {'quick': 45, 'thorough': 420}
+BUDGET_S = {'quick': 150, 'thorough': 420}
 RULE = ('seeded histories of add (incl. re-add with new priority) / remove (present and absent) / pop / peek / '
         'len (with and without default) over 5-50 tasks with priorities from a small set so ties dominate '
         '(ints, floats, None), run on both queue classes at once; BarrelList._size_factor in {1520 (default), '
@@ -298,7 +298,7 @@ class BListCheck(object):
 
 
 def run(ctx):
-    n = {'quick': 2500, 'thorough': 75000}[ctx.tier]
+    n = {'quick': 1500, 'thorough': 75000}[ctx.tier]
     explore(ctx, Check(), n, 'pq')
     explore(ctx, BListCheck(), n, 'blist')
     # the really large queue, default tuning
